@@ -10,6 +10,7 @@ from harness.families import fam, sizes  # noqa: E402
 
 
 _maps = {}
+_keep = []
 
 
 def build(f, kind, keys, impl="C"):
@@ -27,9 +28,54 @@ def build(f, kind, keys, impl="C"):
 
 
 def contents(t, kind, km, vm):
+    def ik(k):
+        try:
+            return km.ik(k)
+        except KeyError:
+            return repr(k)          # a key the adapter did not produce (fromBytes)
+
+    def iv(v):
+        try:
+            return vm.iv(v)
+        except KeyError:
+            return repr(v)
     if kind in ("Set", "TreeSet"):
-        return [km.ik(k) for k in t]
-    return [[km.ik(k), vm.iv(v)] for k, v in t.items()]
+        return [ik(k) for k in t]
+    return [[ik(k), iv(v)] for k, v in t.items()]
+
+
+def loaded_nodes_and_holders(t):
+    """(nodes, holders): every node reachable from t through LOADED nodes only (ghosts are not activated), and
+    for each node id the number of references loaded nodes hold on it (child slots, firstbucket, next)"""
+    nodes, holders = {}, {}
+
+    def hold(o):
+        if o is not None:
+            nodes[id(o)] = o
+            holders[id(o)] = holders.get(id(o), 0) + 1
+
+    def walk(n):
+        nodes[id(n)] = n
+        if n._p_changed is None:          # a ghost: it holds nothing
+            return
+        st = n.__getstate__()
+        if st is None:
+            return
+        if type(n) is not type(t):        # a leaf
+            if len(st) > 1:
+                hold(st[1])
+            return
+        if len(st) == 1:                  # embedded leaf: the node holds it as child 0 and as firstbucket
+            leaf = n._firstbucket
+            hold(leaf); hold(leaf)
+            walk(leaf)
+            return
+        for c in st[0][0::2]:
+            hold(c)
+            walk(c)
+        hold(st[1])
+    walk(t)
+    return nodes, holders
 
 
 def do_op(f, kind, t, km, vm, op):
@@ -66,8 +112,21 @@ def do_op(f, kind, t, km, vm, op):
             return b.__getstate__()
         return cls()._p_resolveConflict(st(op[1]), st(op[1] + [op[2]]), st(op[1] + [op[3]]))
     elif n == "fromBytes":
-        b = f.cls("Bucket", "C")()
-        return b.fromBytes(op[1].encode("latin1"))
+        # on the live container (it may already hold keys: the vectors are then re-allocated, not allocated)
+        return t.fromBytes(op[1].encode("latin1"))
+    elif n == "insert-evicted":
+        # the tree lives in a database and all its nodes are ghosts: the insert has to load them (and a split
+        # may have to load a sibling) while allocations fail
+        from harness.minijar import Storage, Jar
+        jar = Jar(Storage())
+        jar.add(t)
+        jar.commit()
+        jar.minimize()
+        _keep.append(jar)
+        if setlike:
+            t.add(km.k(op[1]))
+        else:
+            t[km.k(op[1])] = vm.v(1)
     elif n == "pickle":
         import pickle
         return len(pickle.loads(pickle.dumps(t)))
@@ -121,13 +180,25 @@ def main():
                 else:
                     try:
                         now = contents(t, kind, km, vm)
-                        mutating = op[0] in ("insert", "update", "setstate", "iand")
+                        mutating = op[0] in ("insert", "update", "setstate", "iand", "fromBytes", "insert-evicted")
                         if mutating and op[0] == "update":
                             ok = now[:len(before)] is not None   # a prefix of the update may have been applied item by item
                             allowed = True
                         else:
                             allowed = now == before or now == after
-                        if not allowed:
+                        if op[0] == "insert-evicted" and kind in ("BTree", "TreeSet"):
+                            # reference accounting of the NODES: each must own at least the references the loaded
+                            # part of the tree holds on it (an over-release would free it while still in the tree)
+                            nodes, holders = loaded_nodes_and_holders(t)
+                            short = [(type(o).__name__, sys.getrefcount(o) - 3, holders.get(i, 0)) for i, o in nodes.items()
+                                     if o is not t and sys.getrefcount(o) - 3 < holders.get(i, 0)]
+                            # (-3: the dict 'nodes', the loop variable, getrefcount's argument)
+                            if short:
+                                bad = "node-short-of-references:%r" % (short[:3],)
+                            del nodes, holders
+                        if bad:
+                            pass
+                        elif not allowed:
                             bad = "partial-change"
                             if op[0] == "setstate":
                                 # (recorded finding F26: the container is emptied) -- it must at least be sound and usable
@@ -142,7 +213,7 @@ def main():
                                     bad = "unsound-after-failed-setstate:" + str(e)[:40]
                                 except Exception as e:  # noqa
                                     bad = "unusable-after-failed-setstate:" + type(e).__name__
-                        elif op[0] not in ("setstate", "iand") and any(a < b for a, b in zip([sys.getrefcount(o) for o in objs], rc_before)):
+                        elif op[0] not in ("setstate", "iand", "fromBytes", "insert-evicted") and any(a < b for a, b in zip([sys.getrefcount(o) for o in objs], rc_before)):
                             # a DROP only: a completed split legitimately adds a reference (the key becomes a separator)
                             # (every object stored before is still stored: no operation but __setstate__ and &= removes one)
                             d = [a - b for a, b in zip([sys.getrefcount(o) for o in objs], rc_before) if a != b]
